@@ -326,7 +326,7 @@ impl World {
             Op::Enter(w) => { self.enter(*w); Out::Unit }
             Op::Ret => { self.ret(); Out::Unit }
             Op::Tx { revert } => {
-                // what `Transactor::transact` does with the storage at the end of a transaction
+                // what `MemoryClient::transact` does with the storage at the end of a transaction (commit, or revert when the script reverted)
                 { let st: &mut MemoryStorage = self.vm.as_mut(); if *revert { st.revert() } else { st.commit() } }
                 self.begin_tx();
                 Out::Unit
